@@ -74,6 +74,9 @@ func c08(args []string) error {
 			}
 			cs.seqs[k] = string(b)
 		}
+		if r.Intn(6) == 0 { // p-distance with removal of ambiguous matches: the weighted denominator
+			cs.model, cs.rmamb, cs.gapmode = 1, true, 0
+		}
 		A, class := runDist(cs, 1)
 		if class != OutOk {
 			continue
